@@ -1,0 +1,57 @@
+//go:build verif
+
+// Machine-checked contracts for govc (see /verif/DESIGN.md). Comments only;
+// compiled only with the build tag "verif".
+
+package authenticators
+
+// ---- C10: cache TTLs never exceed the lifetime of what is cached ----
+
+//@ func (*jwtAuthenticator).getCacheTTL
+//@   props C10
+//@   modifies nothing
+//@   watch old(a.ttl)
+//@   watch old(*a.ttl)
+//@   watch old(len(key.Certificates))
+//@   watch old(unixnano(key.Certificates[0].NotAfter))
+//@   watch clock
+//@   ensures ret0 >= 0
+//@   ensures a.ttl != nil && *a.ttl <= 0 ==> ret0 == 0
+//@   ensures a.ttl != nil ==> ret0 <= max(*a.ttl, 0)
+//@   ensures len(key.Certificates) != 0 && unixnano(key.Certificates[0].NotAfter) >= 0 ==> ret0 <= max(0, (unixsec(unixnano(key.Certificates[0].NotAfter)) - unixsec(old(clock)) - 10) * 1000000000)
+//@   ensures len(key.Certificates) == 0 && a.ttl == nil ==> ret0 == 600000000000
+
+//@ func (*oauth2IntrospectionAuthenticator).getCacheTTL
+//@   props C10
+//@   modifies nothing
+//@   watch old(a.ttl)
+//@   watch old(*a.ttl)
+//@   watch old(introspectResp.Expiry)
+//@   watch old(*introspectResp.Expiry)
+//@   watch clock
+//@   ensures ret0 >= 0
+//@   ensures a.ttl != nil && *a.ttl <= 0 ==> ret0 == 0
+//@   ensures a.ttl != nil ==> ret0 <= max(*a.ttl, 0)
+//@   ensures introspectResp.Expiry != nil && *introspectResp.Expiry >= 0 ==> ret0 <= max(0, (*introspectResp.Expiry - unixsec(old(clock)) - 10) * 1000000000)
+//@   ensures introspectResp.Expiry == nil && a.ttl == nil ==> ret0 == 0
+
+//@ func (*genericAuthenticator).getCacheTTL
+//@   props C10
+//@   modifies nothing
+//@   watch old(a.ttl)
+//@   watch old(unixnano(sessionLifespan.exp))
+//@   watch clock
+//@   ensures ret0 >= 0
+//@   ensures a.ttl <= 0 ==> ret0 == 0
+//@   ensures ret0 <= max(a.ttl, 0)
+//@   ensures sessionLifespan != nil && unixnano(sessionLifespan.exp) != zeroTimeNano() && unixnano(sessionLifespan.exp) >= 0 ==> ret0 <= max(0, (unixsec(unixnano(sessionLifespan.exp)) - unixsec(old(clock)) - 10) * 1000000000)
+
+// call sites of cache.Cache.Set (requires ttl > 0)
+//@ func (*jwtAuthenticator).getKey
+//@   props C10
+
+//@ func (*oauth2IntrospectionAuthenticator).getSubjectInformation
+//@   props C10
+
+//@ func (*genericAuthenticator).getSubjectInformation
+//@   props C10
